@@ -255,6 +255,47 @@ theorem collect_dup_witness :
       (fun r => (Spec.group r.1 []).map (·.alias)) = some ["x"] := by
   decide
 
+/-! ### executable directives on field selections: the collected field carries those of its FIRST occurrence
+(`CollectedField.Field` is the first `*ast.Field`; the generated `_fieldMiddleware` reads `fc.Field.Directives`) -/
+
+/-- merging a later occurrence into a collected field never changes the directives any collected field carries,
+and a new field gets the directives of this (its first) occurrence -/
+theorem field_step_keeps_first_directives (s : Schema) (acc : List CF) (alias name objDef : String) (ss : List Sel)
+    (fd : List String) :
+    (match findSlot s acc name alias objDef with
+      | some i => acc.modify i fun f => { f with sels := f.sels ++ ss }
+      | none => acc ++ [({ alias, name, objDef, sels := ss, fdirs := fd } : CF)]).map CF.fdirs =
+    match findSlot s acc name alias objDef with
+      | some _ => acc.map CF.fdirs
+      | none => acc.map CF.fdirs ++ [fd] := by
+  cases findSlot s acc name alias objDef with
+  | none => simp
+  | some i =>
+    have h := map_modify_comm acc i (fun f => { f with sels := f.sels ++ ss }) CF.fdirs id (fun x => rfl)
+    have hid : ∀ (l : List (List String)) (k : Nat), l.modify k id = l := by
+      intro l
+      induction l with
+      | nil => intro k; simp
+      | cons a t ih => intro k; cases k with
+        | zero => simp
+        | succ j => simp only [List.modify_succ_cons, ih]
+    simp only [h, hid]
+
+/-- `{ a @x  a @y }` is one field, run under `@x` only; `{ a  a @y }` is one field with no directive -/
+example :
+    let s : Schema := { query := "Q", types := [{ name := "Q", kind := .object, implementors := ["Q"] }] }
+    (Impl.collect false s [] [] ["Q"] 10
+        [.field "a" "a" "Q" [{ name := "x" }] [], .field "a" "a" "Q" [{ name := "y" }] []] [] []).map
+      (fun r => r.1.map CF.fdirs) = some [["x"]] ∧
+    (Impl.collect false s [] [] ["Q"] 10
+        [.field "a" "a" "Q" [] [], .field "a" "a" "Q" [{ name := "y" }] []] [] []).map
+      (fun r => r.1.map CF.fdirs) = some [[]] := by
+  decide
+
+/-- `@skip` / `@include` / `@defer` are not run as field middleware -/
+example : userDirs [{ name := "skip" }, { name := "x" }, { name := "include" }, { name := "defer" }] = ["x"] := by
+  decide
+
 
 /-- a plan with distinct keys: `{ a: x  t { y } }` -/
 example : fieldsWF [({ alias := "a", name := "x" }, Shape.leaf false),
